@@ -50,6 +50,10 @@ SKIP = catalog.VOLATILE | catalog.SPIES | {
     'IF', 'AND', 'OR', 'NOT', 'TRUE', 'FALSE', 'NA', 'PI', 'VDB'}
 
 
+NON_NUMERIC = ['abc', '3 apples', 'room 12', '10 km', 'about 7', '12abc',
+               'x1', 'nan', 'inf', 'Infinity', '-inf', '1_000']
+
+
 def shards(tier):
     return 8
 
@@ -203,19 +207,25 @@ def run(ctx):
                                     'value': repr(sval), 'observed': got,
                                     'canonical': want},
                                    group=f'keyword:{sname}:{got[0]}:{fname}')
-                # non-numeric text -> #VALUE!
-                if not variadic:
+                # non-numeric text -> #VALUE!  (words, a number with other
+                # content around it, and the spellings Python's float() reads
+                # but a spreadsheet does not: nan, inf, digit separators)
+                for bad_text in (NON_NUMERIC if not variadic else ()):
                     args = list(base)
-                    args[pos] = 'abc'
+                    args[pos] = bad_text
                     got = monitors.call_outcome(f, *args)
                     ctx.event('numeric_spelling_cases')
-                    ctx.case((fname, pos, 'text-nonnumeric'))
+                    ctx.event('non_numeric_text_cases')
+                    ctx.case((fname, pos, 'text-nonnumeric', bad_text))
                     if got != ('value', ('err', '#VALUE!')):
-                        report(f'{fname}: non-numeric text at numeric '
-                               f'position {pos} -> {got}, expected #VALUE!',
+                        report(f'{fname}: non-numeric text {bad_text!r} at '
+                               f'numeric position {pos} -> {got}, expected '
+                               f'#VALUE!',
                                {'function': fname, 'position': pos,
+                                'args': [repr(a) for a in args],
                                 'observed': got},
-                               group=f'nonnumeric:{got[0]}:{fname}')
+                               group=f'nonnumeric:{bad_text}:{got[0]}:'
+                                     f'{got[1][0] if got[0] == "value" else got[1][:12]}')
                 # formula spelling: the argument as cell reference holding
                 # number / numeric text / boolean / blank
                 if all(not isinstance(a, list) for a in ex) and \
